@@ -79,6 +79,24 @@ def body(ctx):
             specs.append(('stall', sp, dict(budget=rng.randint(0, 12), stall=rng.choice(['raise', 'empty']))))
         else:
             specs.append(('fault', sp, dict(fault={rng.randint(0, 60): rng.choice(['timeout', 'reset', 'eof'])})))
+    # a peer that announces more than the host's own 1 MiB, and a push that fills more than 1 MiB of the send buffer
+    for (md, size) in ((2 * 1024 * 1024, 1500000), (1024 * 1024 + 1, 1024 * 1024 + 300), (0x7FFFFFFF, 1200000)):
+        specs.append(('maxdata above 1 MiB', dict(seed=ctx.seed, maxdata=md, rid='plus', frag='whole', ops=[dict(api='push', path='/big', size=size, src='bytesio', mtime=3)]), {}))
+    # progress callbacks raising something that is not an Exception
+    for api in ('pull', 'push'):
+        for size in (100, 70000, 200000):
+            op = dict(api=api, path='/cb', size=size, cb='raise_base')
+            op.update(dict(dest='bytesio') if api == 'pull' else dict(src='bytesio', mtime=3))
+            specs.append(('callback raising a BaseException', dict(seed=ctx.seed + size, maxdata=65536, rid='plus', frag='whole', ops=[op, dict(api='shell', decode=False, cmd='after', chunks=[b'ok'.hex()])]), {}))
+    # what is parked when connect() is called again without close(): a zero-id packet read while an OPEN was waiting for its OKAY,
+    # late packets of a stream whose operation gave up
+    for k in range(6 if ctx.quick else 60):
+        ops = [dict(api='shell', decode=False, cmd='a%d' % k, chunks=[b'a1'.hex()], stray_zero=(b'stale%d;' % k).hex(), read_timeout_s=1.0),
+               dict(api='reconnect', close_first=(k % 3 == 2)),
+               dict(api=rng.choice(['shell', 'exec_out', 'streaming_shell']), decode=False, cmd='b%d' % k, chunks=[b'b1;'.hex(), b'b2;'.hex()][:1 + k % 2])]
+        if k % 2:
+            ops.insert(1, dict(api='shell', decode=False, cmd='l%d' % k, chunks=[b'late;'.hex()], late=True, read_timeout_s=1.0))
+        specs.append(('reconnect with packets parked', dict(seed=ctx.seed + k, maxdata=4096, rid=rng.choice(['plus', 'same']), frag='whole', ops=ops), dict(stall='raise')))
     traces, meta, env_traces = [], [], []
     for (label, spec, extra) in specs:
         runs = {}
